@@ -719,7 +719,7 @@ def run_job(job):
                       "%s (T=%g, target %r, %s): after %d attempt(s) from an exact draw of pi^(1/T) the functional '%s' of the state is "
                       "not distributed as under pi^(1/T): chi2_19 = %.1f (p = %.3g), smallest exact binomial bin tail %.3g, N = %d replicas"
                       % (job["kind"], job["T"], job["target"], job.get("cfg"), job.get("k_att", 1), name, chi, pc, pb, N),
-                      value=chi, sampler=job.get("tag", job["kind"]), layer="B")
+                      value=chi * 10000.0 / N, sampler=job.get("tag", job["kind"]), layer="B")
                 break
         stats["replicas"] += N
         stats["probe_B_worst_chi2_x10"] = int(10 * worst[1]) if worst else 0
